@@ -3,7 +3,7 @@
    Print Assumptions.  K is the entry key (graph.NodeInfo for graphs), keqb its decidable equality;
    [build_graph K keqb None ss] is the model of newGraph (graph.go:326) before nodes with zero
    numbers are hidden, [new_graph] the graph that is reported; the specification sums are in S_Graph. *)
-From PV Require Import M_Graph S_Graph M_Report L_Graph L_Report L_Tree L_Bounds.
+From PV Require Import M_Graph S_Graph M_Report L_Graph L_Report L_Tree L_Bounds L_Conserve.
 Open Scope Z_scope.
 
 Definition key_eq (K : Type) (keqb : K -> K -> bool) : Prop := forall a b, keqb a b = true <-> a = b.
@@ -173,3 +173,20 @@ Example flat_le_cum_somewhere :
   edge_spec Z Z.eqb false None ss 1 2 = 8 /\ edge_spec Z Z.eqb false None ss 2 1 = 5 /\
   cum_spec Z Z.eqb false None ss 2 = 8.
 Proof. vm_compute. repeat split; reflexivity. Qed.
+
+(* ---- conservation: every sample with a non-empty stack is counted in the flat value of exactly
+   one entry (its leaf), so over any duplicate-free list of entries that contains every leaf the
+   flat values add up to the sum of the sample values -- the reason the flat percentages of a
+   complete listing add up to 100% of the total (for non-negative values, where total = that sum) *)
+Theorem flat_values_add_up : forall K keqb, key_eq K keqb -> forall div ss ks, NoDup ks ->
+  (forall s x, In s ss -> leaf K s = Some x -> In x ks) ->
+  sumk K (flat_spec K keqb div None ss) ks =
+  sumf K (fun s => match leaf K s with Some _ => pick K div s | None => 0 end) ss.
+Proof. exact flat_conservation_lemma. Qed.
+Print Assumptions flat_values_add_up.
+
+Example flat_values_add_up_somewhere :
+  let ss := [mk_gsample [(1, false); (2, false); (1, false)] 5 0; mk_gsample [(1, false); (2, false)] 3 0;
+             mk_gsample [] 100 0] in
+  NoDup [1; 2] /\ sumk Z (flat_spec Z Z.eqb false None ss) [1; 2] = 8.
+Proof. split; [repeat constructor; simpl; intuition discriminate|vm_compute; reflexivity]. Qed.
